@@ -169,13 +169,15 @@ def check_program(prog, rot, styles, acc):
     drawing = any(l.upper() not in 'MZ' for l in letters)
     kinds = ''.join(sorted(set(s[0] for s in ref)))
     parsed = {}
+    spelled = set()
     for style in styles:
         d = refsvg.render(prog, style)
         # harness self-check: the reference recogniser must read the spelling back
         back = refsvg.parse(d)
         if back != prog:
             raise AssertionError('renderer/recogniser disagree: %r -> %r != %r' % (d, back, prog))
-        acc.case(d, cls='style:%s' % style, nontrivial=drawing)
+        acc.case(d, cls='style:%s' % style, nontrivial=drawing and d not in spelled, unique=True)
+        spelled.add(d)
         acc.traces += 1
         c = compare(d, ref)
         if c is None:
